@@ -38,7 +38,7 @@ pub fn generate_c01(tier: &str, rng: &mut Prng) -> Vec<Case> {
             }
         }
         // keys with a rare algebraic feature: the NTT slots of f multiply to 1, the top / constant coefficient of h is 0
-        for kind in ["f_product_one", "h_top_zero", "h_const_zero"] {
+        for kind in ["f_product_one", "h_top_zero", "h_const_zero", "ntt_zero_after_solve"] {
             for ks in crate::seeds::special(n, tier, kind, 1) {
                 let msg = rng.bytes(16);
                 ops.push(Case::new(format!("sign {n} {} {} {}", hex(&ks), hex(&msg), rng.next() >> 1)));
